@@ -6,6 +6,8 @@
    Output per line:
      E <err> <hex cred or -> <hex errstr>
      D <err> <cipher> <mac> <zip> <ttl> <time0> <time1> <uid> <gid> <auth_uid> <auth_gid> <len> <hex payload or -> <hex errstr>
+     I <usec>   from now on the process receives SIGALRM every <usec> microseconds, handled by a no-op handler installed
+                WITHOUT SA_RESTART (an application with its own timers): interruptible calls inside libmunge see EINTR; answers "I ok"
    Only when harness/c13_shims.c is linked in (the C13 check; the hooks below are weak and absent otherwise):
      P <plan>   passes <plan> to the shims (see c13_shims.c), answers "P <n>"
      every E/D answer line is followed by a line "T <trace of the call>"
@@ -13,6 +15,12 @@
 #include "hexio.h"
 #include <unistd.h>
 #include <munge.h>
+#include <signal.h>
+#include <sys/time.h>
+static void on_alarm(int sig) { (void) sig; }
+static int alarm_on;
+/* the timer signal is delivered only while a libmunge call is in progress (the harness's own line I/O is not the subject) */
+static void alarm_gate(int open_) { sigset_t ss; if (!alarm_on) return; sigemptyset(&ss); sigaddset(&ss, SIGALRM); sigprocmask(open_ ? SIG_UNBLOCK : SIG_BLOCK, &ss, NULL); }
 
 /* optional hooks of harness/c13_shims.c */
 __attribute__((weak)) void c13_trace_begin (void);
@@ -31,6 +39,16 @@ int main(int argc, char **argv) {
         char *nl = strchr(line, '\n'); if (nl) *nl = 0;
         munge_ctx_t ctx = munge_ctx_create();
         munge_ctx_set(ctx, MUNGE_OPT_SOCKET, argv[1]);
+        if (line[0] == 'I' && line[1] == ' ') {
+            struct sigaction sa; struct itimerval it; long us = atol(line + 2);
+            memset(&sa, 0, sizeof sa); sa.sa_handler = on_alarm; sigemptyset(&sa.sa_mask); sa.sa_flags = 0;
+            sigaction(SIGALRM, &sa, NULL);
+            it.it_interval.tv_sec = us / 1000000; it.it_interval.tv_usec = us % 1000000; it.it_value = it.it_interval;
+            alarm_on = 1; alarm_gate(0);
+            setitimer(ITIMER_REAL, &it, NULL);
+            printf("I ok\n"); fflush(stdout);
+            continue;
+        }
         if (line[0] == 'P' && line[1] == ' ') {
             printf("P %d\n", c13_plan ? c13_plan(line + 2) : -1);
             munge_ctx_destroy(ctx); fflush(stdout);
@@ -50,7 +68,7 @@ int main(int argc, char **argv) {
             munge_ctx_set(ctx, MUNGE_OPT_UID_RESTRICTION, (uid_t) strtoul(tok[5], NULL, 10));
             munge_ctx_set(ctx, MUNGE_OPT_GID_RESTRICTION, (gid_t) strtoul(tok[6], NULL, 10));
             if (n >= 9) set_id(atol(tok[7]), atol(tok[8]));
-            e = munge_encode(&cred, ctx, buf, len);
+            alarm_gate(1); e = munge_encode(&cred, ctx, buf, len); alarm_gate(0);
             reset_id();
             printf("E %d ", (int) e);
             if (cred) puthex((unsigned char *) cred, strlen(cred)); else printf("-");
@@ -64,7 +82,7 @@ int main(int argc, char **argv) {
             memcpy(cred, c, clen); cred[clen] = 0;
             void *buf = NULL; int len = 0; uid_t uid = 0; gid_t gid = 0; munge_err_t e;
             if (n >= 3) set_id(atol(tok[1]), atol(tok[2]));
-            e = munge_decode(cred, ctx, &buf, &len, &uid, &gid);
+            alarm_gate(1); e = munge_decode(cred, ctx, &buf, &len, &uid, &gid); alarm_gate(0);
             reset_id();
             int ci = 0, ma = 0, zi = 0, ttl = 0; time_t t0 = 0, t1 = 0; uid_t au = 0; gid_t ag = 0;
             munge_ctx_get(ctx, MUNGE_OPT_CIPHER_TYPE, &ci); munge_ctx_get(ctx, MUNGE_OPT_MAC_TYPE, &ma);
